@@ -87,11 +87,11 @@ Theorem c32_header_accept_partial_slots :
     exists g hg cc peers,
       claimed st h = Some g /\ header_at st g = Some hg /\ cfg_of hg = Some cc /\
       lookup g (st_peers st) = Some peers /\
-      (forall k, In k (h_bks h) -> In k peers) /\
-      ((Z.of_N (cc_c cc) + 1) mod 4294967296 <= Z.of_nat (length (dedup (h_bks h))) mod 4294967296)%Z /\
+      (forall b, In b (h_bks h) -> In (bk_id b) peers) /\
+      ((Z.of_N (cc_c cc) + 1) mod 4294967296 <= Z.of_nat (length (dedup (map bk_id (h_bks h)))) mod 4294967296)%Z /\
       exists jks : list (nat * key),
         length jks = Z.to_nat (hs_vbft_m (Z.of_nat (length peers))) /\ NoDup (map fst jks) /\
-        (forall j k, In (j, k) jks -> nth_error (h_bks h) j = Some k) /\
+        (forall j k, In (j, k) jks -> nth_error (h_bks h) j = Some (BkKey k)) /\
         Forall2 (fun jk s => s = SBy (snd jk) (h_hash h)) jks
                 (firstn (Z.to_nat (hs_vbft_m (Z.of_nat (length peers)))) (h_sigs h)).
 Proof. exact accept_partial_slots. Qed.
@@ -106,7 +106,7 @@ Theorem c32_header_accept_partial_listed :
       lookup g (st_peers st) = Some peers /\
       ((cc_c cc + 1 < two32)%N -> (Z.of_nat (length (h_bks h)) < 4294967296)%Z ->
        exists L, NoDup L /\ (N.to_nat (cc_c cc) + 1 <= length L)%nat /\
-         forall k, In k L -> In k (h_bks h) /\ In k peers).
+         forall k, In k L -> In k (map bk_id (h_bks h)) /\ In k peers).
 Proof. exact accept_partial_listed. Qed.
 Print Assumptions c32_header_accept_partial_listed.
 
@@ -128,10 +128,26 @@ Theorem c32_verify_multi_slots :
   forall msg keys m sigs, verify_multi msg keys m sigs = VmsOk ->
     exists jks : list (nat * key),
       length jks = Z.to_nat m /\ NoDup (map fst jks) /\
-      (forall j k, In (j, k) jks -> nth_error keys j = Some k) /\
+      (forall j k, In (j, k) jks -> nth_error keys j = Some (BkKey k)) /\
       Forall2 (fun jk s => s = SBy (snd jk) msg) jks (firstn (Z.to_nat m) sigs).
 Proof. exact verify_multi_ok. Qed.
 Print Assumptions c32_verify_multi_slots.
+
+(** Forged key objects (e.g. a member's key re-encoded as the off-curve point (X, Y+2): same
+    PubkeyID, so it passes the membership test) never fill a signature slot: every slot of an
+    accepted header is filled by a listed GENUINE key object of a member that has signed, and a
+    key list of forged objects only is rejected whenever a signature is asked for.  (Rests on
+    core/signature.verify turning a library panic into "does not verify".) *)
+Theorem c32_forged_keys_never_count :
+  (forall msg keys m sigs, (0 < m)%Z -> (forall b, In b keys -> exists i, b = BkForged i) ->
+     verify_multi msg keys m sigs <> VmsOk) /\
+  (forall st h r, h_height h <> 0%N -> verify_header st h = ROk r ->
+     exists g peers, claimed st h = Some g /\ lookup g (st_peers st) = Some peers /\
+       exists ks : list key,
+         length ks = Z.to_nat (hs_vbft_m (Z.of_nat (length peers))) /\
+         forall k, In k ks -> In (BkKey k) (h_bks h) /\ In k peers /\ signed_by h k).
+Proof. split; [exact all_forged_rejected|exact accept_slots_genuine]. Qed.
+Print Assumptions c32_forged_keys_never_count.
 
 (** the governing height is the highest indexed configuration header below H *)
 Theorem c32_gov_height_spec :
